@@ -52,7 +52,9 @@ def cases(tier, seed):
             out.append(f"series-utc|{z}|{feed}|daily")
         out.append(f"series-06|{z}|60|daily")
     out.append("series-06|US/Pacific|30|daily")
-    out.append("series-06g|US/Pacific|60|daily")  # meter read at 06:00 and one interior meter day without a usable reading
+    out.append("series-06g|US/Pacific|60|daily")
+    out.append("frame-elec|US/Pacific|60|daily")  # electricity feed with zero readings on the probed day
+    out.append("series-none|US/Pacific|60|daily")  # temperature-only reporting data, feed starting at 17:00 local  # meter read at 06:00 and one interior meter day without a usable reading
     if tier != "thorough":  # a 25-hour day in the quick tier as well
         out += ["frame|Europe/London|60|daily", "series-06|Europe/London|60|daily"]
     if tier == "thorough":
@@ -71,9 +73,19 @@ def layouts(n_day):
     return {"0": 0, "1": 1, "half-1": n_day - half - 1 if False else n_day - (half + 1), "half": n_day - half, "half+1": n_day - half + 1}
 
 
+def entry_index(entry, zone, feed, days):
+    idx = feed_index(zone, feed, days)
+    if entry == "series-none":
+        # a weather feed that does not start at local midnight (e.g. cut on UTC days): 17:00 of the day before
+        step = idx[1] - idx[0]
+        lead = pd.date_range(idx[0] - pd.Timedelta(hours=7), idx[0], freq=step, inclusive="left")
+        idx = lead.append(idx)
+    return idx
+
+
 def build(entry, zone, feed, fam, days, missing_first, sym, env=None, meter_missing=None):
     """returns (data object, feed index, nan positions).  `missing_first` = number of readings missing at the start of day 1"""
-    idx = feed_index(zone, feed, days)
+    idx = entry_index(entry, zone, feed, days)
     byday = D.local_days(idx)
     dates = sorted(byday)
     probe = byday[dates[1]]
@@ -81,6 +93,8 @@ def build(entry, zone, feed, fam, days, missing_first, sym, env=None, meter_miss
     n = len(idx)
     temp = D.col("T", n, nan_pos, sym, env)
     cls = dd.DailyBaselineData if fam == "daily" else bd.BillingBaselineData
+    if entry == "series-none":
+        cls = dd.DailyReportingData  # usage is optional for reporting data
     orig = cls._check_data_sufficiency
 
     def spy(self, sufficiency_df):  # observation point: the per-day counts only live in this argument
@@ -96,6 +110,19 @@ def _build(cls, entry, zone, feed, days, idx, nan_pos, temp, sym, env, meter_mis
         obs = D.col("o", n, (), sym, env)
         df = pd.DataFrame({"observed": obs, "temperature": temp}, index=idx)
         d = cls(df, is_electricity_data=False)
+    elif entry == "frame-elec":
+        # electricity: a reading of exactly 0 is treated as a missing USAGE reading; the temperature of that hour still counts
+        zero = sorted(D.local_days(idx).items())[1][1][-3:-1]
+        if sym:  # every other reading is non-zero (each possible zero would double the paths)
+            for i in range(n):
+                if i not in zero:
+                    E.cur().assume(z3.Real(f"o{i}") != 0)
+        obs = D.col("o", n, (), sym, env, zero_pos=zero)
+        df = pd.DataFrame({"observed": obs, "temperature": temp}, index=idx)
+        d = cls(df, is_electricity_data=True)
+    elif entry == "series-none":
+        ts = pd.Series(temp, index=idx, name="temperature")
+        d = cls.from_series(None, ts, is_electricity_data=False, tzinfo=idx.tz)
     else:
         hour = 6 if entry.startswith("series-06") else 0
         s0 = pd.Timestamp(START[zone]).tz_localize(zone) + pd.Timedelta(hours=hour)
@@ -139,6 +166,10 @@ def check_concrete(entry, zone, d, idx, nan_pos, env):
     df = d.df
     exp = expected_days(entry, zone, idx, nan_pos)
     counts = getattr(d, "_verif_counts", None)
+    have = set(df.index)
+    for s0, (allp, pres, complete) in exp.items():
+        if complete and s0 not in have:
+            pr.append(f"no row for the complete meter day starting {s0} (rows are stamped {[str(t) for t in df.index[:3]]} ...)")
     for t, val in zip(df.index, df["temperature"].to_numpy(dtype=float)):
         if t not in exp:
             continue
@@ -176,8 +207,8 @@ def run_case(case: Case, name: str):
         return FPF.half_lemma(case, 100, "present/(present+absent) readings of a meter day")
     entry, zone, feed, fam = name.split("|")
     days = 5 if entry == "series-06g" else (4 if case.tier == "thorough" else 3)
-    idx0 = feed_index(zone, feed, days)
-    byday = D.local_days(idx0)
+    idx0 = entry_index(entry, zone, feed, days)
+    byday = D.local_days(feed_index(zone, feed, days))
     dates = sorted(byday)
     n_day = len(byday[dates[1]])
     lay = layouts(n_day)
